@@ -165,7 +165,8 @@ func c01(r *core.Run) {
 		"(R2) every embedding entry point of runtime that runs user code defers runtime.Recover before any other call; " +
 		"(R3) every recover() site has the reviewed arm summary (which dynamic types are absorbed, which re-panicked): none absorbs a Go runtime.Error or an InternalError except the reviewed boundaries, and new sites are violations until classified; " +
 		"(R4) module-wide error discipline: no call of a module, atree or fixed-point function has its error result dropped, overwritten before being tested, or swallowed on its non-nil edge, beyond the 121 sites recorded from the pinned tree (a baseline, not individually justified); " +
-		"(R6) no raw VM.locals / Upvalue.closed slot value is pushed on the VM operand stack without maybeUnwrapImplicitReference (an ImplicitReferenceValue there fails a Go type assertion, i.e. an internal error)."
+		"(R6) no raw VM.locals / Upvalue.closed slot value is pushed on the VM operand stack without maybeUnwrapImplicitReference (an ImplicitReferenceValue there fails a Go type assertion, i.e. an internal error); " +
+		"(R7) every ExternalInterface method converts a non-nil host error with WrappedExternalError (an unwrapped host error is reported as an internal error)."
 	r.NotDecided = "type soundness (that defensive internal-error checks never fire for checker-accepted programs) and VM/interpreter parity: these need generated programs."
 	w := r.W
 	ec := loadErrClasses(r)
@@ -235,6 +236,12 @@ func c01(r *core.Run) {
 	r.Floor("R3.recover", 30)
 	// R6 VM-internal wrapper values never reach the operand stack (a Go type-assertion panic there is an internal error)
 	vmImplicitRefRule(r, "R6.implicitref")
+	// R7 host errors are classified as external: the wrapper shape of runtime.ExternalInterface (shared with C28.R1)
+	externalWrapperRule(r, "R7.hostwrap")
+	r.Floor("R7.hostwrap", 40)
+	// R8 engine twins fail alike: removing an attachment that is not attached is a no-op in both engines (shared with C49.R2)
+	removeAbsentIsNoop(r, "R8.twins")
+	r.Floor("R8.twins", 2)
 }
 
 func typeShort(t types.Type) string {
